@@ -24,6 +24,7 @@ import (
 //	stale-external   opens round N+1 with an external reference to a known final round below the stored link
 //	own-chain        external reference to the chain's own previous round
 //	self-mismatch    commits to a hash that is not the previous final round
+//	self-mismatch-and-unknown-external  the same, and the external round is one the victim has not seen yet
 //	empty-head-stale the head round was opened empty (its certified external round is not known to the
 //	                 victim yet) and a second certified snapshot of that round names a stale external round
 //
@@ -76,13 +77,19 @@ func c20InjectGen(rng *core.Rng, tier string, p *harness.Plan) {
 		}
 		p.Ops = append(p.Ops, harness.Op{At: at, Kind: "hist", N: rng.IntN(chains), A: nr, C: int64(rng.Uint64() >> 1), S: fmt.Sprint("h", i)})
 	}
+	if rng.Chance(0.5) {
+		// a failing disk under the round-transition writes while the valid history arrives
+		for i := 0; i < 1+rng.IntN(3); i++ {
+			p.Ops = append(p.Ops, harness.Op{At: int64(2*time.Second/time.Microsecond) + rng.Int64N(at-int64(2*time.Second/time.Microsecond)+1), Kind: "failround", N: rng.IntN(7), A: int64(rng.IntN(2)), B: int64(rng.IntN(3) / 2)})
+		}
+	}
 	for i := 0; i < variants; i++ {
 		at += int64(rng.Dur(500*time.Millisecond, 1200*time.Millisecond) / time.Microsecond)
 		kind := "badref"
 		if rng.Chance(0.35) {
 			kind = "emptyhead"
 		}
-		p.Ops = append(p.Ops, harness.Op{At: at, Kind: kind, N: rng.IntN(chains), M: rng.IntN(7), A: int64([]int{0, 0, 1, 2}[rng.IntN(4)]), B: int64(rng.IntN(chains)), C: int64(rng.Uint64() >> 1), S: fmt.Sprint("v", i)})
+		p.Ops = append(p.Ops, harness.Op{At: at, Kind: kind, N: rng.IntN(chains), M: rng.IntN(7), A: int64([]int{0, 0, 1, 2, 3, 3}[rng.IntN(6)]), B: int64(rng.IntN(chains)), C: int64(rng.Uint64() >> 1), S: fmt.Sprint("v", i)})
 		at += int64(6 * time.Second / time.Microsecond) // the victim is restarted inside this window
 		for k := 0; k < 2; k++ {
 			at += int64(rng.Dur(200*time.Millisecond, 600*time.Millisecond) / time.Microsecond)
@@ -202,6 +209,32 @@ func c20InjectExec(p *harness.Plan) *harness.Outcome {
 			name, refs.External = "stale-external", stale.hash
 		case 1:
 			name, refs.External = "own-chain", x.closed[x.number-1]
+		case 3:
+			// commits to a wrong previous round AND names an external round the victim has not seen yet
+			// (a round another chain closes right now; everybody but the victim learns it)
+			yi := -1
+			for k := 0; k < len(inj.chains) && yi < 0; k++ {
+				cand := inj.chains[(int(op.B)+k)%len(inj.chains)]
+				if cand.id != x.id && closable(cand) && cand.number >= x.links[cand.id] {
+					yi = (int(op.B) + k) % len(inj.chains)
+				}
+			}
+			if yi < 0 {
+				return
+			}
+			y := inj.chains[yi]
+			itY, err := inj.next(yi, true)
+			if err != nil {
+				return
+			}
+			valid = append(valid, itY)
+			toAll(itY, vr, victim.Idx)
+			name = "self-mismatch-and-unknown-external"
+			refs.External = y.closed[y.number-1]
+			refs.Self = x.closed[x.number-1]
+			if vr.Chance(0.5) {
+				refs.Self = crypto.Blake3Hash(append(final[:], 1))
+			}
 		default:
 			name = "self-mismatch"
 			refs.Self = x.closed[x.number-1]
